@@ -177,7 +177,7 @@ STATS = [
 
 def run(ctx: Ctx):
   st = {}
-  for r in (r1, r2, r3, r4, r5, r6, r7, r9, r10, r12, r14, r15, r16, r17):
+  for r in (r1, r2, r3, r4, r5, r6, r7, r9, r10, r12, r14, r15, r16, r17, r18):
     ctx.guard(r, st)
   from mlmverif.props import c11
   from mlmverif.props._agg import model as aggmodel
@@ -398,6 +398,141 @@ def r17(ctx: Ctx, st):
                      ' padding of each batch', node=(uses[0] if uses else fi.node))
   ctx.floor(rule, 2, n)
 
+
+
+_TO_FLOAT = {'safe_divide', 'divide', 'true_divide', 'sqrt', 'pos_sqrt', 'float', 'float64', 'float32', 'log', 'exp',
+             'mean', 'nanmean'}
+_FLOAT_DTYPES = {'float', 'np.float64', 'np.float32', 'np.double', 'numpy.float64', 'types.DefaultDType',
+                 'agg_types.DefaultDType', 'DefaultDType'}
+
+
+def r18(ctx: Ctx, st):
+  rule = 'R-C07-18'
+  ctx.rule(rule, '"metric values equal their mathematical definitions ... rates stay in their mathematical range": the'
+           ' confusion-matrix cells are INTEGER counts (int64). In every formula over a confusion matrix, an integer-typed'
+           ' intermediate has degree <= 2 in the counts: a product of three or more counts (or sums of counts) is formed'
+           ' in floating point (an operand converted with np.asarray(..., dtype=float) / float / a division first). A'
+           ' degree-4 integer product wraps around from ~55 000 examples per cell on — the Matthews denominator then'
+           ' is negative (ValueError) or a wrong positive number (a coefficient outside [-1, 1])')
+  repo = ctx.repo
+  mi = repo.module('aggregates.classification')
+  cmc = mi.classes.get('_ConfusionMatrix')
+  if cmc is None:
+    raise AnalysisError('aggregates.classification._ConfusionMatrix not found')
+  counts = set()
+  init = cmc.methods.get('__init__')
+  if init is None:
+    raise AnalysisError('_ConfusionMatrix.__init__ not found')
+  for x in ast.walk(init.node):
+    if isinstance(x, ast.Assign):
+      for t in x.targets:
+        if is_self_attr(t):
+          counts.add(t.attr)
+  for name, fi in cmc.methods.items():
+    if any('property' in d for d in fi.decorators):
+      rets = [r for r in ast.walk(fi.node) if isinstance(r, ast.Return) and r.value is not None]
+      if rets and all(isinstance(y, (ast.Attribute, ast.BinOp, ast.Name, ast.Load, ast.Add, ast.Sub, ast.expr_context))
+                      for r in rets for y in ast.walk(r.value)) and any(
+                          is_self_attr(y) and y.attr in counts for r in rets for y in ast.walk(r.value)):
+        counts.add(name)
+  counts -= {'dtype'}
+  if not {'tp', 'tn', 'fp', 'fn'} <= counts:
+    raise AnalysisError(f'_ConfusionMatrix count fields not recognised: {sorted(counts)}')
+  formulas = {}
+  for fi in mi.functions.values():
+    args = fi.node.args.args
+    if args and args[0].annotation is not None and '_ConfusionMatrix' in unparse(args[0].annotation):
+      formulas[fi.name] = fi
+  n = 0
+
+  def join(a, b):
+    if 'float' in (a, b):
+      return 'float'
+    return 'int' if a == b == 'int' else 'unk'
+
+  def ev(e, env, cmv, bad, depth=0):
+    """(kind, degree in the counts) of an expression; records integer sub-expressions of degree >= 3."""
+    if isinstance(e, ast.Constant):
+      if isinstance(e.value, bool) or isinstance(e.value, int):
+        return 'int', 0
+      return ('float', 0) if isinstance(e.value, float) else ('unk', 0)
+    if isinstance(e, ast.Attribute) and isinstance(e.value, ast.Name) and e.value.id == cmv and e.attr in counts:
+      return 'int', 1
+    if isinstance(e, ast.Name):
+      return env.get(e.id, ('unk', 0))
+    if isinstance(e, ast.UnaryOp):
+      return ev(e.operand, env, cmv, bad, depth)
+    if isinstance(e, ast.BinOp):
+      lk, ld = ev(e.left, env, cmv, bad, depth)
+      rk, rd = ev(e.right, env, cmv, bad, depth)
+      if isinstance(e.op, (ast.Add, ast.Sub)):
+        res = join(lk, rk), max(ld, rd)
+      elif isinstance(e.op, ast.Mult):
+        res = join(lk, rk), ld + rd
+      elif isinstance(e.op, ast.Div):
+        res = 'float', max(ld - rd, 0)
+      elif isinstance(e.op, ast.Pow) and isinstance(e.right, ast.Constant) and isinstance(e.right.value, int):
+        res = lk, ld * e.right.value
+      else:
+        res = 'unk', max(ld, rd)
+      if res[0] == 'int' and res[1] >= 3:
+        bad.append((e, res[1]))
+      return res
+    if isinstance(e, ast.Call):
+      fn = e.func.attr if isinstance(e.func, ast.Attribute) else e.func.id if isinstance(e.func, ast.Name) else ''
+      subs = [ev(a, env, cmv, bad, depth) for a in e.args]
+      if fn in _TO_FLOAT:
+        return 'float', 0
+      if fn in ('asarray', 'array', 'astype'):
+        dt = kwarg(e, 'dtype')
+        if dt is None and fn == 'astype' and e.args:
+          dt = e.args[0]
+        elif dt is None and fn != 'astype' and len(e.args) > 1:
+          dt = e.args[1]
+        if dt is not None and unparse(dt) in _FLOAT_DTYPES:
+          return 'float', (subs[0][1] if subs and fn != 'astype' else 0)
+        if fn == 'astype':
+          return ev(e.func.value, env, cmv, bad, depth)
+        return subs[0] if subs else ('unk', 0)
+      if fn in formulas and depth < 4 and e.args and isinstance(e.args[0], ast.Name) and e.args[0].id == cmv:
+        return summary(formulas[fn], bad=None, depth=depth + 1)
+      return 'unk', 0
+    return 'unk', 0
+
+  def summary(fi, bad, depth=0):
+    cmv = fi.node.args.args[0].arg
+    env = {}
+    out = ('unk', 0)
+    sink = bad if bad is not None else []
+    for stmt in fi.node.body:
+      if isinstance(stmt, ast.Assign) and len(stmt.targets) == 1 and isinstance(stmt.targets[0], ast.Name):
+        env[stmt.targets[0].id] = ev(stmt.value, env, cmv, sink, depth)
+      elif isinstance(stmt, ast.Return) and stmt.value is not None:
+        out = ev(stmt.value, env, cmv, sink, depth)
+      elif isinstance(stmt, ast.Expr) and isinstance(stmt.value, ast.Constant):
+        continue
+      else:
+        for x in ast.walk(stmt):
+          if isinstance(x, ast.expr) and not isinstance(x, (ast.Name, ast.Constant, ast.Attribute)):
+            ev(x, env, cmv, sink, depth)
+            break
+    return out
+
+  for name, fi in sorted(formulas.items()):
+    n += 1
+    bad = []
+    summary(fi, bad)
+    what = f'{name}: integer intermediates have degree <= 2 in the counts'
+    if not bad:
+      ctx.ok(rule, fi, what, fi.node)
+    else:
+      e, d = max(bad, key=lambda t: t[1])
+      ctx.fail(rule, fi, what,
+               f'{name} forms `{unparse(e)[:100]}` in integer arithmetic: degree {d} in the int64 counts'
+               f' ({sorted(counts)}); it wraps around once the cells hold ~{int((2**63) ** (1 / d)):,} examples each, and the'
+               ' metric is then an error or a number outside its range. Convert one operand to floating point first'
+               ' (np.asarray(..., dtype=float))', node=e)
+  ctx.floor(rule, 25, n)
 
 
 def _c11_shared(sub, m):
@@ -1191,6 +1326,11 @@ _C = 'aggregates/classification.py'
 _T = 'aggregates/retrieval.py'
 _MC = 'metrics/classification.py'
 VARIANTS = [
+    B('revert-mcc-integer-product', 'aggregates/classification.py',
+      '      np.asarray(cm.tp + cm.fp, dtype=types.DefaultDType)\n      * (cm.tp + cm.fn)', '      (cm.tp + cm.fp)\n      * (cm.tp + cm.fn)', 'R-C07-18'),
+    OK('mcc-denominator-as-two-roots', 'aggregates/classification.py',
+       '  denominator = math_utils.pos_sqrt(\n      np.asarray(cm.tp + cm.fp, dtype=types.DefaultDType)\n      * (cm.tp + cm.fn)\n      * (cm.tn + cm.fp)\n      * (cm.tn + cm.fn)\n  )',
+       '  denominator = math_utils.pos_sqrt((cm.tp + cm.fp) * (cm.tp + cm.fn)) * math_utils.pos_sqrt(\n      (cm.tn + cm.fp) * (cm.tn + cm.fn)\n  )'),
     B('masked-truths-counted', 'aggregates/retrieval.py',
       '    matched_true_prob = matched_true_prob[matched_true_prob >= 0]\n    matched_pred_prob = matched_pred_prob[matched_pred_prob >= 0]\n',
       '', 'R-C07-17'),
